@@ -167,12 +167,12 @@ class Summ:
             normal_reaches = False
             for x in sorted(blocks):
                 for (t, lab) in body.succ[x]:
-                    if t not in blocks and lab is not None and lab[0] in trivial and body.reaches_acyclic(t, bb):
+                    if t not in blocks and lab is not None and lab[0] in trivial and body.edge_reaches_acyclic(x, t, bb):
                         normal_reaches = True
             if not normal_reaches:
                 continue  # bb lies on an early-exit path of this loop: its path condition already says which one
             early = [(x, t, lab) for x in sorted(blocks) for (t, lab) in body.succ[x] if t not in blocks and not (lab is not None and lab[0] in trivial)]
-            if early and all(body.reaches_acyclic(t, bb) for (_x, t, _l) in early):
+            if early and all(body.edge_reaches_acyclic(_x, t, bb) for (_x, t, _l) in early):
                 # every way out of the loop (exhaustion and each `break`) leads here: the loop puts no condition on reaching bb; what differs
                 # between the ways out is carried by the values they set (a flag: see flag_cond)
                 continue
@@ -182,7 +182,7 @@ class Summ:
                         continue
                     if lab is not None and lab[0] in trivial:
                         continue  # iterator exhausted: the normal exit
-                    if body.reaches_acyclic(t, bb):
+                    if body.edge_reaches_acyclic(x, t, bb):
                         raise Unanalysable("early exit of the loop at bb%d rejoins the code after it (%s)" % (h, body.path))
                     cond = self.guard(body, x)
                     if lab is not None:
@@ -247,7 +247,7 @@ class Summ:
         body.guards()
         trivial = getattr(body, "trivial_switches", set())
         for h, blocks in sorted(body.loops.items()):
-            normal = [t for x in blocks for (t, lab) in body.succ[x] if t not in blocks and lab is not None and lab[0] in trivial]
+            normal = [t for x in blocks for (t, lab) in body.succ[x] if t not in blocks and lab is not None and lab[0] in trivial and (x, t) not in body.back]
             inside = []
             for bb, v in defs:
                 if bb in blocks or not body.reaches_acyclic(h, bb):
@@ -369,7 +369,7 @@ class Summ:
                 for (t, lab) in body.succ[x]:
                     if t in blocks or (lab is not None and lab[0] in trivial):
                         continue
-                    if not any(t == rb or body.reaches_acyclic(t, rb) for rb in reads):
+                    if (x, t) in body.back or not any(t == rb or body.reaches_acyclic(t, rb) for rb in reads):
                         continue  # leaves towards a place where the flag no longer matters
                     # is x reachable from the loop head inside one iteration without passing a block that sets the flag?
                     seen, work = set(), [h]
